@@ -21,6 +21,7 @@ from ..index import AnalysisError
 from .. import npstub
 
 PROTO = ('__deepcopy__', '__copy__')
+ACTIONS: Dict[str, object] = {}      # scenario class -> further public actions performed on the fork (must not be visible in the original)
 ENGINE_MODULES = {'bidding_phase', 'playing_phase', 'hands'}
 
 
@@ -84,9 +85,10 @@ def _scenarios(repo, fo: Folder) -> Dict[str, object]:
     B = {b.name: b for b in fo.members('Bid')}
     if repo.has_cls('BiddingPhase'):
         e = fo._construct(repo.cls('BiddingPhase'), [], {'dealer': P['N'], 'vul': V['NS']})
-        for nm in ('C1', 'Pass', 'X'):
+        for nm in ('C1', 'X', 'Pass'):
             fo.call_method(e, 'take_bid', B[nm])
         out['BiddingPhase'] = e
+        ACTIONS['BiddingPhase'] = lambda o: [fo.call_method(o, 'take_bid', B[nm]) for nm in ('XX', 'D1', 'Pass', 'X', 'XX', 'NT7')]
     from .c14 import build_deals
     deals = dict(build_deals(fo))
     hd = next(iter(deals.values()))
@@ -112,6 +114,24 @@ def _scenarios(repo, fo: Folder) -> Dict[str, object]:
             fo.call_method(full, 'play_card_by_player', c, P[s])
             played.append((s, c))
         out['PlayingPhaseWithHands'] = full
+
+        def play_on(o, n=8):
+            """n more cards on the engine o, each by the seat on turn from the hand the oracle of this scenario says it holds"""
+            left = {s: [c for c in sorted(hd[s], key=lambda c: (c.fields['suit'].name, c.fields['rank'])) if all(c is not pc for _, pc in played)] for s in 'NESW'}
+            for _ in range(n):
+                ap = fo.call_method(o, 'active_player') if False else o.fields.get('active_player')
+                seat = getattr(ap, 'name', None)
+                if seat is None or not left[seat]:
+                    return
+                c = left[seat].pop(0)
+                try:
+                    if 'hands' in o.fields or '_hand' in o.fields:
+                        fo.call_method(o, 'play_card_by_player', c, P[seat])
+                    else:
+                        fo.call_method(o, 'play_card', c)
+                except FoldRaise:
+                    return
+        ACTIONS['PlayingPhaseWithHands'] = ACTIONS['ObservedPlayingPhase'] = ACTIONS['PlayingPhase'] = play_on
         ph = full.fields.get('playing_history')
         if isinstance(ph, DV):
             out[ph.cls.name] = ph
@@ -175,11 +195,28 @@ def run(chk, rule: str, modules) -> None:
         shared = sorted((a[i][0] for i in a if i in b and i != id(obj)), key=len)
         if dup is obj:
             shared = ['self'] + shared
-        chk.require(not shared, rule, where, qual, f'copy.deepcopy of a {short}: shared mutable state',
-                    f'copy.deepcopy of a {short} (through {qual}) shares no mutable object with the original',
-                    f'after copy.deepcopy of a {short} in mid-life state the fork and the original share `{shared[0] if shared else ""}`'
-                    + (f' (and {len(shared) - 1} more)' if len(shared) > 1 else '') + ': what one of them accepts / records next changes the other (each alone still behaves)')
-        if not shared:
-            same = _render(obj) == _render(dup)
+        same = _render(obj) == _render(dup)
+        if shared:
+            # sharing is a violation when it shows: further actions on the fork through its public methods must leave the original as it was.
+            # (a container both only read - a lookup table kept on the instance - may be shared; then nothing changes and nothing is reported)
+            before = _render(obj)
+            act = ACTIONS.get(short)
+            if act is None:
+                raise AnalysisError(rule, qual, f'copy.deepcopy of a {short} shares `{shared[0]}` with the original and the rule has no action to show whether that matters')
+            try:
+                fo.steps = 0
+                act(dup)
+            except (Unsupported, AnalysisError) as e:
+                raise AnalysisError(rule, qual, f'actions on the fork of a {short} left the foldable subset: {e}')
+            except FoldRaise:
+                pass
+            changed = _render(obj) != before
+            chk.require(not changed, rule, where, qual, f'copy.deepcopy of a {short}: shared mutable state',
+                        f'calls / cards taken by a fork made with copy.deepcopy (through {qual}) leave the original {short} unchanged',
+                        f'after copy.deepcopy of a {short} in mid-life state the fork and the original share `{shared[0]}`'
+                        + (f' (and {len(shared) - 1} more)' if len(shared) > 1 else '') + ': calls / cards then taken by the fork change the original (each object alone still behaves)')
+            if not changed:
+                chk.note(f'{rule}: copy.deepcopy of a {short} shares `{shared[0]}` with the original; further actions on the fork did not change the original (read-only sharing)')
+        if not shared or True:
             chk.require(same, rule, where, qual, f'copy.deepcopy of a {short}: value', f'copy.deepcopy of a {short} holds the same values as the original',
                         f'copy.deepcopy of a {short} in mid-life state (through {qual}) does not hold the same state as the original')
